@@ -8,7 +8,7 @@ STUBS = "#[kani::stub(crc_any::CRCu32::digest, crate::util::stub_digest)]\n#[kan
 def generate(T, tier):
     G = msggen.MsgGen(T)
     code = []
-    hs = [{"name": "c12::clear_%s" % k, "group": "stub", "tier": "quick" if k != "corrupt" else "thorough",
+    hs = [{"name": "c12::clear_%s" % k, "group": "stub", "tier": "quick" if k in ("unsupported", "empty") else "thorough",
            "bounds": "L1: every 1029-byte builder state (data[0]==0xD3, has_run) x %s: state after the call == fresh state" % d}
           for k, d in (("empty", "Message::Empty"), ("corrupt", "Message::Corrupt"), ("unsupported", "MsgNotSupported(any u16)"))]
     byvar = {m["module"]: m for m in T.messages}
@@ -95,8 +95,8 @@ def generate(T, tier):
 }
 """ % (STUBS, G.any_expr("msg1005", 0, "cand"), m["variant"]))
     hs.append({"name": "c12::fresh_eq", "group": "stub", "tier": "thorough", "bounds": "L2: fresh state with has_run = true vs MessageBuilder::new(), symbolic Msg1005"})
-    hs.append({"name": "c12::inv_fail_after_write", "group": "stub", "tier": "quick",
-               "bounds": "fresh builder + a concrete Msg1071 refused after the message number was written: used-flag up (or buffer untouched) afterwards"})
+    hs.append({"name": "c12::inv_fail_after_write", "group": "stub", "tier": "thorough",
+               "bounds": "fresh builder + a concrete Msg1230 refused after the first fields were written: used-flag up (or buffer untouched) afterwards"})
     gen.write_gen("c12_list.rs", "\n".join(code))
     return {
         "harnesses": hs,
